@@ -170,5 +170,6 @@ theorem step_refused {w : World} (op : Op) (hin : inContract w op = true) (hr : 
     · simp [badOp] at hr
   | del c => simp only [step] at hr ⊢; split at hr <;> simp [badOp, commit] at hr
   | bassign c d => simp [inContract] at hin
+  | read c => simp only [step] at hr ⊢; split at hr <;> simp [badOp, commit] at hr
 
 end Cello.Own
